@@ -680,3 +680,43 @@ func c13round2(c *an.Ctx) {
 		}
 	}
 }
+
+func init() {
+	old := All["C13"].Run
+	All["C13"].Run = func(c *an.Ctx) {
+		old(c)
+		c13purgeEveryIndex(c)
+	}
+	All["C13"].Rules += " R9"
+}
+
+// c13purgeEveryIndex — C13.R9.  Dropped series are removed from the index files by a periodic
+// purge that every index of a retention policy runs on its own files, driven by the SHARED
+// tombstone table of the policy.  The purge of one index may be skipped only for reasons that
+// are about that index's own deleted set (no tombstone table yet, nothing deleted); a reason
+// derived from the shared table's state ("nothing new was labelled") is consumed by the first
+// index that runs and starves the others — after a restart their dropped series are back.
+func c13purgeEveryIndex(c *an.Ctx) {
+	const T = "engine/index/tsi"
+	r := c.Rule("C13.R9", "K-GUARD", T+":(*IndexBuilder).DropSeries — the purge of an index's parts is skipped only when there is no tombstone table or the index's own deleted set is empty")
+	f := fn(r, T+":IndexBuilder.DropSeries")
+	if f == nil {
+		return
+	}
+	purge := f.Find(call(r, "lib/util/lifted/vm/mergeset:Table.RemoveItemsByDelTsidsFromParts"))
+	if r.Failed() {
+		return
+	}
+	early := f.Find(an.MReturn("nil before the purge", func(g *an.Fn, rs *ast.ReturnStmt) bool {
+		return len(rs.Results) == 1 && an.IsNilIdent(g.Info, rs.Results[0])
+	}))
+	r.AddSites(purge.Len() + early.Len())
+	if purge.Len() == 0 {
+		r.Fail(f.Name+": purge", c.P.Pos(f.Body.Pos()), "DropSeries no longer removes the items of dropped series from the index parts")
+		return
+	}
+	f.Guarded(r, early, "purge skipped only for lack of a tombstone table or an empty deleted set",
+		an.AtomLike(`^nil==.*DeleteMergeSet\(\)$`, true),
+		an.AtomLike(`^nil==.*GetDeletedTSIDs\(\)$`, true),
+		an.AtomLike(`^0<.*GetDeletedTSIDs\(\)\.Len\(\)$`, false))
+}
